@@ -160,6 +160,10 @@ func initConverter(loader *pkgload.PackageLoader, rawConverter *RawConverter) (*
 			return nil, err
 		}
 
+		if named, ok := interfaceObj.Type().(*types.Named); ok && named.TypeParams().Len() > 0 {
+			return nil, fmt.Errorf("error parsing converter at\n    %s\n    %s\n\ninterfaces with type parameters are not supported", c.Location, interfaceObj.String())
+		}
+
 		c.typ = interfaceObj.Type()
 		c.Name = rawConverter.InterfaceName + "Impl"
 		return c, nil
